@@ -47,7 +47,8 @@ type getterSummary struct {
 	why   string
 }
 
-func summariseGetter(p *Program, f *ssa.Function) getterSummary {
+// idFn, when given, is kept opaque (not expanded): the answer is judged relative to its result.
+func summariseGetter(p *Program, f *ssa.Function, idFn *ssa.Function) getterSummary {
 	var gs getterSummary
 	key := keyParamOf(f)
 	if key == nil || len(f.Params) < 2 {
@@ -55,7 +56,7 @@ func summariseGetter(p *Program, f *ssa.Function) getterSummary {
 		return gs
 	}
 	bind := map[ssa.Value]*term{f.Params[0]: S("ST"), key: S("KEY")}
-	ps, why := flatten(p, f, bind, trieScope)
+	ps, why := flatten(p, f, bind, func(g *ssa.Function) bool { return trieScope(g) && g != idFn })
 	if why != "" {
 		gs.why = "cannot be summarised: " + why
 		return gs
@@ -154,7 +155,7 @@ func checkC14(p *Program, r *Report) {
 		r.Unk("(*trie.SlimTrie).Get/GetID", "", "anchor not found")
 		return
 	}
-	gSum := summariseGetter(p, get)
+	gSum := summariseGetter(p, get, getID)
 	// the id term is whatever Get's own not-found answer tests against -1 (GetID(key) today, or what
 	// it expands to when GetID is a thin wrapper)
 	idS := idTermOfGet(gSum)
@@ -215,7 +216,7 @@ func checkC14(p *Program, r *Report) {
 			continue
 		}
 		r.Func(shortFn(f))
-		sum := summariseGetter(p, f)
+		sum := summariseGetter(p, f, getID)
 		if sum.why != "" {
 			r.Bad("(*trie.SlimTrie)."+name, p.Pos(f.Pos()), sum.why)
 			continue
